@@ -20,6 +20,11 @@ def run(ctx):
     out = os.path.join(wd, "varint.ndjson")
     p = subprocess.run([prog, "varint", out], stdout=subprocess.PIPE, stderr=subprocess.PIPE, text=True, timeout=600)
     if p.returncode != 0:
+        if p.returncode < 0:
+            # the harness only calls the functions under test on valid buffers: a signal is the functions' doing
+            core.report(ctx, "the varint / fixed-width functions ended the process with signal %d while being called on valid buffers (after %d logged calls): %s" % (
+                -p.returncode, sum(1 for _ in open(out)) if os.path.exists(out) else 0, p.stderr[-300:]), {"kind": "output", "stdout": p.stderr[-2000:]})
+            return core.finish(ctx, LEVEL, {"evaluations": 0, "distinct_nontrivial": 0}, rule="the run ended abnormally")
         raise core.Infra("codec_drv varint failed: " + p.stderr[-500:])
     recs = [json.loads(l) for l in open(out)]
     ok, depth, r = core.validate_trace(out, "Trace_Varint", timeout=1800)
